@@ -12,7 +12,7 @@ import (
 
 func init() {
 	register("C07",
-		"the only write evaluation makes to the data map is the binder, called from one place that is dominated by `target is a bare identifier` and `name starts with $` (failing edges return an error), storing and yielding the very evaluation of the right operand; left is evaluated before right and handlers receive (left, right) in that order; comma yields its right operand; argument and element loops run 0..Len() in order after the callee; every decimal / reflect mutator in evaluator-reachable code (builtins included) writes only into a number or container created in the same function; no store, map update, append-in-place or sort reaches an object obtained from caller data. The binder stores (key, value) on every path, null included.",
+		"the only write evaluation makes to the data map is the binder, called from one place that is dominated by `target is a bare identifier` and `name starts with $` (failing edges return an error), storing and yielding the very evaluation of the right operand; left is evaluated before right and handlers receive (left, right) in that order; comma yields its right operand; argument and element loops run 0..Len() in order after the callee; every decimal / reflect mutator in evaluator-reachable code (builtins included) writes only into a number or container created in the same function; no store, map update, append-in-place or sort reaches an object obtained from caller data. The binder stores (key, value) on every path, null included. A call is refused for what its callee is only after its arguments have been evaluated; a defensive copy of a stored number is an exact one ((*Big).Copy).",
 		"what host functions do with the values they are handed.",
 		runC07)
 }
@@ -427,6 +427,51 @@ func c07Order(c *Ctx, d *Dispatcher) {
 				argsAt = hit.Via
 			}
 			c.R.Check(rule, "callee-before-arguments", c.P.InstrPos(hit.Call), callee != nil && instrDominates(callee, argsAt), "the callee must be evaluated before the arguments")
+			// ... and the arguments before the call is refused for what the callee turned out to be: an assignment
+			// inside an argument of a call that fails (`nosuch($x = 5)`) has happened, as in every other position
+			if callee != nil {
+				anchor := argsAt.Block()
+				bad := ""
+				instrs(h, func(b *ssa.BasicBlock, i int, in ssa.Instruction) {
+					ret, ok := in.(*ssa.Return)
+					if !ok || len(ret.Results) != 2 || bad != "" || !instrDominates(callee, ret) {
+						return
+					}
+					fresh := false
+					for _, rt := range plainOrigins.Roots(ret.Results[1]) {
+						if rt.Kind == "call" && rt.Fn != nil && (rt.Fn.String() == "fmt.Errorf" || rt.Fn.String() == "errors.New") {
+							fresh = true
+						}
+					}
+					if !fresh {
+						return
+					}
+					// the test that decides on this return
+					t := b.Idom()
+					if t == nil || len(t.Instrs) == 0 {
+						return
+					}
+					if iff, isIf := t.Instrs[len(t.Instrs)-1].(*ssa.If); isIf {
+						// `if err != nil { return nil, fmt.Errorf("..: %w", err) }`: an evaluation error handed on
+						if bo, isB := iff.Cond.(*ssa.BinOp); isB && (isNilConst(bo.X) || isNilConst(bo.Y)) {
+							other := bo.X
+							if isNilConst(bo.X) {
+								other = bo.Y
+							}
+							if ex, isEx := other.(*ssa.Extract); isEx {
+								if _, isCall := ex.Tuple.(*ssa.Call); isCall && ex.Type().String() == "error" {
+									return
+								}
+							}
+						}
+					}
+					// decided on the way to the arguments: the test dominates their evaluation
+					if t != anchor && t.Dominates(anchor) {
+						bad = c.P.InstrPos(ret)
+					}
+				})
+				c.R.Check(rule, "arguments-before-the-call-is-refused", c.P.InstrPos(hit.Call), bad == "", "the call is refused at "+bad+" (an error made on the spot) before its arguments have been evaluated: a local assigned inside an argument is lost, and an argument's own error is masked")
+			}
 		}
 	}
 	c.R.Floor(rule, 12)
@@ -646,6 +691,45 @@ func conjunctsOf(v ssa.Value, depth int) []ssa.Value {
 			continue
 		}
 		if sub := conjunctsOf(e, depth+1); sub != nil {
+			out = append(out, sub...)
+		} else {
+			out = append(out, e)
+		}
+	}
+	return out
+}
+
+// junctsOf: the operands of a short-circuit `&&` / `||` lowered to a value (a phi with that comment: the constant
+// false / true on the edges of operands that decide the result early, the value of the last operand on the other).
+func junctsOf(v ssa.Value, op string, depth int) []ssa.Value {
+	phi, ok := v.(*ssa.Phi)
+	if !ok || phi.Comment != op || depth > 6 {
+		return nil
+	}
+	early := "false"
+	idx := 1
+	if op == "||" {
+		early, idx = "true", 0
+	}
+	var out []ssa.Value
+	for i, e := range phi.Edges {
+		pred := phi.Block().Preds[i]
+		if k, isK := e.(*ssa.Const); isK && k.Value != nil && k.Value.String() == early {
+			if len(pred.Instrs) == 0 {
+				return nil
+			}
+			iff, isIf := pred.Instrs[len(pred.Instrs)-1].(*ssa.If)
+			if !isIf || len(pred.Succs) != 2 || pred.Succs[idx] != phi.Block() {
+				return nil
+			}
+			if sub := junctsOf(iff.Cond, op, depth+1); sub != nil {
+				out = append(out, sub...)
+			} else {
+				out = append(out, iff.Cond)
+			}
+			continue
+		}
+		if sub := junctsOf(e, op, depth+1); sub != nil {
 			out = append(out, sub...)
 		} else {
 			out = append(out, e)
